@@ -126,3 +126,12 @@ Definition rows_VB (dcount : list N -> nat) (kind : N) (lrecl : option nat) (sch
   | Err e => Err e
   | Ok _ => let '(recs, f, _) := VB_record_iter kind file in Ok (rows_from dcount schema (recs, f))
   end.
+
+(* the same through RECFM_F / RECFM_FB: fixed-length records, each cut at the lrecl the sheet holds (the workbook's, else the one
+   computed from the layout); a variable-length record is stored padded to that length and is laid out by its own counters *)
+Definition rows_F (dcount : list N -> nat) (kind : N) (lrecl : option nat) (schema : js) (file : list N)
+  : res (list (row N) * fin) :=
+  match set_schema dcount lrecl schema with
+  | Err e => Err e
+  | Ok l => let '(recs, f, _) := F_record_iter kind (Z.of_nat l) file in Ok (rows_from dcount schema (recs, f))
+  end.
